@@ -562,9 +562,25 @@ class SymInt(int):
     def __rrshift__(self, o):
         raise Escape("shift by symbolic amount")
 
+    def _bitop2(self, o, op, name):
+        """x <op> y for two symbolic ints: exact when the path condition bounds both to [0, 2^W) for some W <= 64
+        (bit by bit over that width); otherwise the encoding has no width to work with and the path escapes."""
+        P = cur()
+
+        def width(t):
+            for W in (1, 4, 8, 16, 32, 64):
+                if P.solver.check(z3.Not(z3.And(t >= 0, t < (1 << W)))) == z3.unsat:
+                    return W
+            return None
+        wa, wb = width(self.t), width(o.t)
+        if wa is None or wb is None:
+            raise Escape("%s of two symbolic ints (no width bound known)" % name)
+        W = max(wa, wb)
+        return lift(z3.Sum([z3.IntVal(0)] + [(1 << i) * op(bit(self.t, i), bit(o.t, i)) for i in range(W)]))
+
     def __and__(self, o):
         if isinstance(o, SymInt):
-            raise Escape("& of two symbolic ints (needs a width)")
+            return self._bitop2(o, lambda a, b: z3.If(z3.And(a == 1, b == 1), z3.IntVal(1), z3.IntVal(0)), "&")
         if not isinstance(o, int):
             return NotImplemented
         return lift(band_const(self.t, int(o)))
@@ -573,7 +589,7 @@ class SymInt(int):
 
     def __or__(self, o):
         if isinstance(o, SymInt):
-            raise Escape("| of two symbolic ints")
+            return self._bitop2(o, lambda a, b: z3.If(z3.Or(a == 1, b == 1), z3.IntVal(1), z3.IntVal(0)), "|")
         if not isinstance(o, int):
             return NotImplemented
         return lift(self.t + int(o) - band_const(self.t, int(o)))
@@ -582,7 +598,7 @@ class SymInt(int):
 
     def __xor__(self, o):
         if isinstance(o, SymInt):
-            raise Escape("^ of two symbolic ints")
+            return self._bitop2(o, lambda a, b: z3.If(a != b, z3.IntVal(1), z3.IntVal(0)), "^")
         if not isinstance(o, int):
             return NotImplemented
         return lift(self.t + int(o) - 2 * band_const(self.t, int(o)))
